@@ -9,7 +9,7 @@ values, so "sum to zero" is the (only) way an insert can go unnoticed — the as
 exactly `NoCancel`.
 -/
 namespace Ccp.C07Ck
-open Ccp.Checkpoint
+open Ccp.Py Ccp.Checkpoint
 
 theorem total_append (h : Item → Int) (a b : List Item) : total h (a ++ b) = total h a + total h b := by
   simp [total, List.sum_append]
